@@ -447,6 +447,59 @@ def more_format(ctx, b, label, fmt):
             ctx.compare(rop, norm_read(got), norm_read(m), dict(replay, variant=variant))
 
 
+def molcas_layout(ctx, b, label):
+    """molcas_library (whole file) and molcas (inline; the reader of the library form cannot read it) against
+    coq/Model/Molcas.v + MolcasEcp.v.  Model inputs taken from the implementation: the normalised shells, the first-author and
+    reference strings the library writer prints per element (its own helpers first_author / format_reference), and the
+    iteration order of the set of cartesian letters (read off the written text)."""
+    from basis_set_exchange import writers, readers, manip, sort, api
+    from basis_set_exchange.writers import molcas_library as ml
+    if ctx.model is None:
+        return
+    pb = impl.call(lambda x: sort.sort_basis(manip.make_general(x, False, True), False), copy.deepcopy(b))
+    if pb[0] != 'ok':
+        return
+    els = [[int(z), el.get('electron_shells'), el.get('ecp_electrons'), el.get('ecp_potentials')] for z, el in pb[1]['elements'].items()]
+    ref_data = api.get_reference_data(None)
+    metas = []
+    for z, el in pb[1]['elements'].items():
+        try:
+            ref = el['references'][-1]['reference_keys'][-1]
+        except (IndexError, KeyError):
+            ref = None
+        a = impl.call(ml.first_author, ref, ref_data)
+        f = impl.call(ml.format_reference, ref, ref_data)
+        if a[0] != 'ok' or f[0] != 'ok':
+            return
+        metas.append([int(z), a[1], f[1]])
+    bs_name = (b['names'][0] if 'names' in b else b['name']).replace(' ', '_')
+    for fmt in ('molcas_library', 'molcas'):
+        w = impl.call(writers.write_formatted_basis_str, copy.deepcopy(b), fmt)
+        if w[0] != 'ok' or len(w[1]) > 200000:
+            continue
+        order = []
+        for line in w[1].splitlines():
+            if line.startswith('Cartesian '):
+                order += [x for x in line.split()[1:] if x not in order]
+        replay = {'kind': fmt + '-layout', 'label': label, 'input': b if len(str(b)) < 15000 else None}
+        ctx.case((label, fmt + '-layout'), True, fmt + '-layout')
+        if fmt == 'molcas_library':
+            m = ctx.model.call('mcasl_write_all', order, bs_name, metas, els)
+        else:
+            m = ctx.model.call('mcas_write_all', order, els)
+        ctx.compare(fmt + ':write', ('ok', w[1]), m, replay)
+        for variant, lines in (('as-written', w[1].splitlines()), ('damaged', damage_lines(w[1].splitlines(), random.Random(len(w[1]) + 11)))):
+            r = impl.call(readers.read_formatted_basis_str, '\n'.join(lines) + '\n', fmt)
+            mr = ctx.model.call('mcas_read_all', lines)
+            if mr[0] == 'error' and 'NotImpl' in str(mr[1]):
+                ctx.dist[fmt + '-read:outside-modelled-fragment'] += 1
+                continue
+            ctx.case((label, fmt + '-read', variant), True, fmt + '-read:' + variant)
+            got = canon_whole(whole_shape(r))
+            want = ('error', 'any') if mr[0] != 'ok' else canon_whole(('ok', [[z, e] for z, e in mr[1][0]]))
+            ctx.compare(fmt + ':read', got, want, dict(replay, variant=variant))
+
+
 def norm_read(r):
     if r[0] != 'ok':
         return ('error', 'any')      # the reader's error classes (RuntimeError / KeyError / IndexError ...) are not part of the property
@@ -536,6 +589,7 @@ def work_store(ctx, item):
     lmol_layout(ctx, b, label)
     for mf in MORE_FORMATS:
         more_format(ctx, b, label, mf)
+    molcas_layout(ctx, b, label)
     if rng.random() < (1.0 if ctx.thorough() else 0.4):
         file_and_convert(ctx, b, label, rng)
     ctx.sample({'store': label, 'formats': rw_formats()})
@@ -579,6 +633,7 @@ def work_generated(ctx, seed):
     lmol_layout(ctx, b, 'gen:%d:%s' % (seed, kind))
     for mf in MORE_FORMATS:
         more_format(ctx, b, 'gen:%d:%s' % (seed, kind), mf)
+    molcas_layout(ctx, b, 'gen:%d:%s' % (seed, kind))
     if seed % 5 == 0 and kind == 'plain':
         file_and_convert(ctx, b, 'gen:%d' % seed, rng)
 
